@@ -417,6 +417,19 @@ def rule_takeover(ctx, rule):
         ok = bool(upd) and all(g.dominated_by(n, [], ne_edges) for n in upd)
         ctx.check(ok, rule, f.short, "remembered-mtime-updated-with-restart",
                   message="the remembered st_mtime is not updated together with the restart of the observation", how="`remembered = current` under the same edge")
+        # the remembered identity is carried from one iteration to the next: an assignment inside the loop that is not the
+        # update under the `!=` edge (e.g. `remembered = None` moved into the EEXIST arm) makes every retry look like a
+        # changed lock, the observation restarts each time and a dead holder's lock is never taken over
+        rem_in_loop = [n for n in g.stmt_nodes() if n.kind == "stmt" and isinstance(n.ast, (ast.Assign, ast.AnnAssign, ast.AugAssign))
+                       and any(isinstance(x, ast.Name) and x.id in remembered and isinstance(x.ctx, ast.Store) for x in ast.walk(n.ast))
+                       and heads and any(n in g.reachable([m for k, m in h.succ if k == "t"]) for h in heads)]
+        resets = [n for n in rem_in_loop if not g.dominated_by(n, [], ne_edges)]
+        ctx.check(not resets, rule, f.short, "remembered-mtime-carried-across-iterations",
+                  message=f"{cls.name}.acquire re-initialises the remembered st_mtime inside the retry loop outside the `changed` edge "
+                          f"({[norm(n.ast)[:40] for n in resets]}): every retry then sees a changed lock and restarts the grace timer, so the lock of a holder "
+                          f"that died is never taken over and every survivor blocks forever",
+                  how="every in-loop store to the remembered identity is dominated by the `mtime != remembered` edge",
+                  where=where(f, resets[0].ast) if resets else None)
         # what is watched is the lock itself: a symlink lock must not be stat-ed through the link (os.stat follows it to
         # the journal file, whose mtime does not change when the lock changes hands - a second waiter's timer would keep
         # running across a take-over and it would remove the first waiter's fresh lock)
